@@ -111,10 +111,14 @@ GEN_CFGS = {
     "wide": dict(Comp='{"a", "b", "c"}', MaxDepth=2, Chunks='{"c1", "c2", "c3"}', AttrVals="{1, 2}", Depth=12, OkBias=85),
     "deep": dict(Comp='{"a", "b"}', MaxDepth=4, Chunks='{"c1", "c2"}', AttrVals="{1}", Depth=12, OkBias=88),
     "long": dict(Comp='{"a", "b", "c"}', MaxDepth=3, Chunks='{"c1", "c2", "c3"}', AttrVals="{1, 2, 3}", Depth=30, OkBias=90),
+    # file handles that stay open across other calls (HOpen / HWrite / HSync / HClose interleaved with everything else)
+    "handles": dict(Comp='{"a", "b"}', MaxDepth=2, Chunks='{"c1", "c2"}', AttrVals="{1, 2}", Depth=16, OkBias=85,
+                    Handles='{"h1", "h2"}', HandleFlags="{0, 1, 2, 6, 10, 18, 26, 42}", HBias=45),
 }
 
 
 def gen_cfg_text(o):
+    o = dict({"Handles": "{}", "HandleFlags": "{}", "HBias": 0}, **o)
     return """CONSTANTS
   Comp = %(Comp)s
   MaxDepth = %(MaxDepth)s
@@ -123,9 +127,12 @@ def gen_cfg_text(o):
   MaxTape = 400
   Chunks = %(Chunks)s
   AttrVals = %(AttrVals)s
+  Handles = %(Handles)s
+  HandleFlags = %(HandleFlags)s
   MaxContent = 2
   RS = 4
   Depth = %(Depth)s
+  HBias = %(HBias)s
   OkBias = %(OkBias)s
   Shape <- MCShape
   ChunkBlocks <- MCChunkBlocks
@@ -147,9 +154,17 @@ def generate_core(seed, plan):
 
 
 def mc_core(tier):
+    """Exhaustive check of the design: every call kind without open handles, plus a second
+    configuration in which a handle stays open across the other calls."""
     if tier == "quick":
-        return core.model_check("MC_STFS.tla", "MC_STFS_small.cfg", timeout=600)
-    return core.model_check("MC_STFS.tla", "MC_STFS_thorough.cfg", timeout=3000, heap="24g")
+        a = core.model_check("MC_STFS.tla", "MC_STFS_small.cfg", timeout=900)
+        b = core.model_check("MC_STFS.tla", "MC_STFS_handles.cfg", timeout=900)
+    else:
+        a = core.model_check("MC_STFS.tla", "MC_STFS_thorough.cfg", timeout=3000, heap="24g")
+        b = core.model_check("MC_STFS.tla", "MC_STFS_handles_thorough.cfg", timeout=3000, heap="24g")
+    for k in ("distinct", "generated", "wall_s"):
+        a[k] += b[k]
+    return a
 
 
 def run_core(prop, tier, seed, t0, replay_item=None):
@@ -163,7 +178,7 @@ def run_core(prop, tier, seed, t0, replay_item=None):
     else:
         mc = mc_core(tier)
         log("[%s] TLC exhaustive: %d distinct / %d generated states in %.0fs, all invariants hold on the design" % (prop, mc["distinct"], mc["generated"], mc["wall_s"]))
-        plan = [("wide", 120), ("deep", 50), ("long", 12)] if tier == "quick" else [("wide", 1500), ("deep", 700), ("long", 200)]
+        plan = [("wide", 110), ("deep", 45), ("long", 12), ("handles", 40)] if tier == "quick" else [("wide", 1500), ("deep", 700), ("long", 200), ("handles", 600)]
         behs, gen_states = generate_core(seed, plan)
         rng = random.Random(seed)
         items = []
